@@ -7,11 +7,18 @@
 (* An exported blob is the term [key, pw]: it opens only with its password.    *)
 (* Names and passwords are opaque class names ("empty", "unicode", ...); the   *)
 (* driver maps them to concrete strings.                                       *)
+(* Keys the caller brings along (ImportPrivateKey) are named by the number of  *)
+(* LEADING ZERO BYTES of their 32-byte secret scalar: the key classes whose    *)
+(* shortest big-endian form is shorter than the stored form.  Such a key has   *)
+(* the fixed number GivenId(lz); keys made by the keystore are numbered 1, 2.. *)
 EXTENDS Integers, Sequences, FiniteSets, TLC
 
-CONSTANTS Names, Passwords, BlobSlots
+CONSTANTS Names, Passwords, BlobSlots,
+          GivenKeys     \* leading-zero-byte counts (0..31) of the keys a caller may bring
 
 NoKey == 0
+GivenId(lz) == 100 + lz
+GivenIds == {GivenId(g) : g \in GivenKeys}
 None  == [key |-> NoKey, pw |-> "-"]
 
 VARIABLES box,     \* Names -> None or [key |-> id, pw |-> password]
@@ -42,6 +49,10 @@ ImportOutcome(b, n, pw, blob) ==
   ELSE "ok"
 ImportBox(b, n, pw, blob) == IF ImportOutcome(b, n, pw, blob) = "ok" THEN [b EXCEPT ![n] = [key |-> blob.key, pw |-> pw]] ELSE b
 
+\* ImportPrivateKey(name, pw, key): the named key must exist and open with pw; it is replaced by the given key
+ImportPrivOutcome(b, n, pw) == IF ~Present(b, n) THEN "missing" ELSE IF b[n].pw # pw THEN "invalid" ELSE "ok"
+ImportPrivBox(b, n, pw, g) == IF ImportPrivOutcome(b, n, pw) = "ok" THEN [b EXCEPT ![n] = [key |-> GivenId(g), pw |-> pw]] ELSE b
+
 (***************************************************************************)
 (* Actions: one per method of keystore.Service.                            *)
 (***************************************************************************)
@@ -70,7 +81,13 @@ Import(n, pw, s) ==
   /\ UNCHANGED <<blobs, nkeys>>
   /\ res' = [op |-> "import", name |-> n, pw |-> pw, slot |-> s, out |-> ImportOutcome(box, n, pw, blobs[s])]
 
+ImportPriv(n, pw, g) ==
+  /\ box' = ImportPrivBox(box, n, pw, g)
+  /\ UNCHANGED <<blobs, nkeys>>
+  /\ res' = [op |-> "importpriv", name |-> n, pw |-> pw, lz |-> g, out |-> ImportPrivOutcome(box, n, pw)]
+
 Next == \/ \E n \in Names, pw \in Passwords : Key(n, pw)
+        \/ \E n \in Names, pw \in Passwords, g \in GivenKeys : ImportPriv(n, pw, g)
         \/ \E n \in Names : Exists(n)
         \/ \E n \in Names, pw \in Passwords, s \in BlobSlots : Export(n, pw, s) \/ Import(n, pw, s)
 
@@ -79,7 +96,7 @@ Spec == Init /\ [][Next]_ksvars
 (***************************************************************************)
 (* Properties (statement of C36 over histories).                           *)
 (***************************************************************************)
-TypeOK == /\ \A n \in Names : box[n] = None \/ (box[n].key \in 1..nkeys /\ box[n].pw \in Passwords)
+TypeOK == /\ \A n \in Names : box[n] = None \/ (box[n].key \in (1..nkeys) \cup GivenIds /\ box[n].pw \in Passwords)
           /\ nkeys \in Nat
 
 \* the right password returns the stored key; any other password is rejected; asking again creates nothing
@@ -89,15 +106,20 @@ KeyContract ==
      /\ (res.out = "invalid" => res.key = NoKey /\ box[res.name].pw # res.pw)
      /\ (res.out = "created" => res.key = nkeys)
 
+\* a key brought by the caller is stored under the name and password (whatever its leading bytes), so that
+\* KeyContract returns exactly it afterwards
+ImportPrivContract ==
+  (res.op = "importpriv" /\ res.out = "ok") => (box[res.name].key = GivenId(res.lz) /\ box[res.name].pw = res.pw)
+
 \* a stored key changes only through a successful import, its password never changes, nothing disappears
 Stable == [][\A n \in Names :
                /\ (Present(box, n) => Present(box', n) /\ box'[n].pw = box[n].pw)
-               /\ (Present(box, n) /\ box'[n].key # box[n].key => res'.op = "import" /\ res'.out = "ok" /\ res'.name = n)]_ksvars
+               /\ (Present(box, n) /\ box'[n].key # box[n].key => res'.op \in {"import", "importpriv"} /\ res'.out = "ok" /\ res'.name = n)]_ksvars
 
 \* exporting then importing reproduces the key
 ExportImport ==
   (res.op = "import" /\ res.out = "ok") => (box[res.name].key = blobs[res.slot].key /\ box[res.name].pw = res.pw)
 
 \* an exported blob always holds a key that was stored under its password
-BlobsGenuine == \A s \in BlobSlots : blobs[s] # None => blobs[s].key \in 1..nkeys
+BlobsGenuine == \A s \in BlobSlots : blobs[s] # None => blobs[s].key \in (1..nkeys) \cup GivenIds
 =============================================================================
